@@ -68,6 +68,10 @@ class Greedy:
         cps = [a for a in ast.walk(self.fn) if isinstance(a, ast.Assign) and isinstance(a.value, ast.Call) and call_name(a.value) in ("copy", "deepcopy")
                and a.value.args and norm(a.value.args[0]) == "worker_pools"]
         self.scratch = {norm(a.targets[0]) for a in cps}
+        for _ in range(2):
+            for a in ast.walk(self.fn):
+                if isinstance(a, ast.Assign) and isinstance(a.value, ast.Name) and a.value.id in self.scratch:
+                    self.scratch.add(norm(a.targets[0]))
         self.scratch_nodes = cps
         rets = [r for r in ast.walk(self.fn) if isinstance(r, ast.Return)]
         self.result = None
